@@ -79,8 +79,31 @@ def run(ctx):
   sequences(ctx)
 
 
+def range_filter_unconditional(ctx, fi, rule='RANGE/filter-whatever-the-amount'):
+  """"notes leaving [min_allowed_pitch, max_allowed_pitch] are deleted" holds for every amount, 0 included: a note that already lies
+  outside the range is deleted when the sequence is transposed by 0.  The comparison with the allowed range must not sit under a
+  condition on the amount."""
+  from sa import pitfalls
+  fn = fi.node
+  cmps = [c for c in ast.walk(fn) if isinstance(c, ast.Compare) and any(isinstance(n, ast.Name) and n.id in ('min_allowed_pitch', 'max_allowed_pitch') for n in ast.walk(c))]
+  cons = 'the allowed-pitch filter of transpose_note_sequence runs for every amount'
+  if not cmps:
+    why = 'cannot classify: no comparison with min_allowed_pitch / max_allowed_pitch found in transpose_note_sequence'
+    ctx.ob(rule, fi, fn, False, why, construct=cons, unknown=why)
+    return
+  guarded = [(c, [(t, p) for t, p in pitfalls.guards_at(fn, c) if any(isinstance(n, ast.Name) and n.id == 'amount' for n in ast.walk(U.expand_locals(fn, t, at=c)))]) for c in cmps]
+  seen_pol = set((norm_text(t), p) for _c, gs in guarded for t, p in gs)
+  for c, gs in guarded:
+    # a filter written once per case of the amount (both arms of the same test hold a comparison) covers every amount
+    gs = [(t, p) for t, p in gs if (norm_text(t), not p) not in seen_pol]
+    ctx.ob(rule, fi, c, not gs, 'the filter is not conditional on the amount' if not gs else
+           'the comparison %s is made only when %s: transposing by an amount for which that is false (0) keeps notes that lie outside [min_allowed_pitch, max_allowed_pitch] and '
+           'does not count them as deleted' % (norm_text(c)[:60], ' and '.join(('' if p else 'not ') + norm_text(t) for t, p in gs)), construct=cons, definite=True)
+
+
 def operand(ctx, fi):
   fn = fi.node
+  range_filter_unconditional(ctx, fi)
   A = nf.rat(E('amount'))
   loop = next((n for n in fn.body if isinstance(n, ast.For) and norm_text(n.iter).endswith('.notes')), None)
   ctx.require(loop is not None, 'transpose_note_sequence: note loop not found')
@@ -626,6 +649,25 @@ def sequences(ctx):
          'LeadSheet.transpose does not apply one transpose_amount to both melody and chords: %s' % calls, construct='melody.transpose(a, ...) and chords.transpose(a)')
   from rules import C17 as _c17
   _c17.paired_on_every_exit(ctx, ls, 'transpose', 'SEQ/leadsheet-every-exit', mode='transpose')
+  # a lead sheet hands min_note / max_note on to its melody: called with defaults it must do what the melody does with defaults
+  from sa import pitfalls as _pf
+  for mname_ in ('transpose', 'squash'):
+    a_, b_ = ctx.func('lead_sheets_lib:LeadSheet.' + mname_), ctx.func('melodies_lib:Melody.' + mname_)
+    da_, db_ = _pf._param_table(a_.node)[1], _pf._param_table(b_.node)[1]
+    for q_ in sorted(set(da_) & set(db_)):
+      va_, vb_ = _fold_num(ctx, a_.module, da_[q_]), _fold_num(ctx, b_.module, db_[q_])
+      cons_ = 'LeadSheet.%s(%s=...) defaults like Melody.%s' % (mname_, q_, mname_)
+      if va_ is None or vb_ is None:
+        if norm_text(da_[q_]) == norm_text(db_[q_]):
+          ctx.ob('SEQ/leadsheet-defaults', a_, a_.node, True, 'both default %s to %s' % (q_, norm_text(da_[q_])), construct=cons_)
+        else:
+          why_ = 'cannot classify: the defaults %s and %s of %s are not numbers' % (norm_text(da_[q_]), norm_text(db_[q_]), q_)
+          ctx.ob('SEQ/leadsheet-defaults', a_, a_.node, False, why_, construct=cons_, unknown=why_)
+        continue
+      ok_ = va_ == vb_
+      ctx.ob('SEQ/leadsheet-defaults', a_, a_.node, ok_, '%s defaults to %s in both' % (q_, va_) if ok_ else
+             'LeadSheet.%s defaults %s to %s where Melody.%s defaults it to %s: a lead sheet transposed with default arguments folds its melody into another range than the melody alone '
+             '(max_note is exclusive: 127 instead of 128 sends a note landing on pitch 127 down an octave)' % (mname_, q_, va_, mname_, vb_), construct=cons_, definite=True)
   # Melody.squash folds the melody into [min_note, max_note) whatever the key argument is: every normal exit has passed
   # self.transpose(amount, min_note, max_note), except the exit taken when the melody holds no pitch at all
   sq = ctx.func('melodies_lib:Melody.squash')
